@@ -25,6 +25,11 @@ class Names(object):
         self.rps = [mkuuid(rng) for _ in range(n_rp)]
         self.rp_names = ['rp%d' % i for i in range(n_rp)]
         self.consumers = [mkuuid(rng) for _ in range(n_cons)]
+        # consumers whose uuid is spelled in upper case (valid input); they
+        # are only ever written through POST /allocations and POST /reshaper
+        # (PUT canonicalises the spelling in its path) so that one consumer
+        # has one spelling throughout a history
+        self.upper_consumers = [mkuuid(rng).upper() for _ in range(2)]
         self.aggs = [mkuuid(rng) for _ in range(3)]
         self.projects = ['pj0', 'pj1', 'pj2']
         self.users = ['us0', 'us1', 'us2']
@@ -483,7 +488,10 @@ class HistoryGen(object):
         r = self.rng
         v = self.ver(['1.13', '1.27', '1.28', '1.34', '1.38', '1.39'])
         k = r.choice([1, 2, 2, 3, 3, 4])
-        cs = r.sample(self.n.consumers, min(k, len(self.n.consumers)))
+        pool = list(self.n.consumers)
+        if r.random() < 0.3:
+            pool += self.n.upper_consumers
+        cs = r.sample(pool, min(k, len(pool)))
         body = {}
         replaced = set(cs)
         # joint-overcommit mode: all consumers aim at one inventory, each
@@ -595,7 +603,7 @@ class HistoryGen(object):
         if r.random() < 0.2:
             # a brand-new consumer placed by the reshape (or named with
             # nothing to write)
-            c = r.choice(self.n.consumers)
+            c = r.choice(self.n.consumers + self.n.upper_consumers)
             if c not in allocs and new_pairs:
                 rp, rc = r.choice(new_pairs)
                 f = invs[rp]['inventories'][rc]
